@@ -703,7 +703,10 @@ def targeted_programs():
 # word operators next to operands whose FIRST and LAST characters are in different classes (a number ending in a dot,
 # an identifier ending in a combining mark / connector / non-ASCII digit): the space handlers look at one character
 EDGE_OPERANDS = ['1.', '0.', '5.e1', '.5', 'A\u0300', 'a\u203f', 'caf\u00e9', 'x\u0660', '$', '_', '$a', 'a$', '"s"', '/re/', '/re/g', '[1]',
-                 '(a)', '{}', 'this', '0x1F', 'e\u0301\u0301']
+                 '(a)', '{}', 'this', '0x1F', 'e\u0301\u0301',
+                 # identifier characters that are not \\w for Python (should the lexer ever accept them, the space handlers
+                 # must know): Other_ID_Start, letterlike symbols, and a non-BMP letter
+                 '\u2118', '\u212ea', 'b\u309b', '\U00010400x', '\u00aa', '\u00b5m', '\u02ee']
 EDGE_FORMS = ['typeof %s;', 'void %s;', 'delete %s;', 'x = typeof %s == y;', 'x = %s in y;', 'x = y in %s;', 'x = %s instanceof y;',
               'x = y instanceof %s;', 'function f(){ return %s; }', 'throw %s;', 'x = new %s;', 'if (a) %s; else %s;',
               'do %s; while (%s);', 'for (var k in %s);', 'x = a + %s - %s;', 'x = a + +%s - -%s;', 'var v = %s, w = %s;',
